@@ -46,6 +46,7 @@ def make_ops(thorough):
     ops.append(("conv", "length", "m", 1500.0))
     ops.append(("conv", "depth", "km", 2.0))
     ops.append(("conv", "time", "s", 2.0))
+    ops.append(("queries",))  # every read-only getter of the manager at once, compared with the model
     return ops
 
 
@@ -138,6 +139,23 @@ def apply(s, op, part, hist):
             result = mgr.GetNewId()
         elif kind == "conv":
             result = mgr.ConvertToCurrent(op[1], op[2], op[3])
+        elif kind == "queries":
+            from barril.units import ObtainQuantity, Scalar
+
+            def q(f):
+                try:
+                    return ("ok", f())
+                except Exception as e:
+                    return ("raise", type(e).__name__)
+
+            result = (
+                tuple(q(lambda: mgr.GetUnitSystemById(i).GetId()) for i in ("a", "b", "c", "system 1", "nope")),
+                tuple(q(lambda: mgr.GetCategoryDefaultUnit(c)) for c in ("length", "depth", "time")),
+                tuple(q(lambda: mgr.GetQuantityDefaultUnit(ObtainQuantity(u, c))) for u, c in (("m", "length"), ("km", "depth"), ("s", "time"))),
+                tuple(q(lambda: (lambda r: (r.GetValue(), r.GetUnit(), r.GetCategory()))(mgr.ConvertScalarToCurrent(Scalar(1500.0, u, c)))) for u, c in (("m", "length"), ("km", "depth"), ("s", "time"))),
+                q(lambda: mgr.GetCurrent().GetId()),
+                q(lambda: list(mgr.GetUnitSystems())),
+            )
     except Exception as e:  # judged below
         exc = e
     # the model
@@ -218,6 +236,29 @@ def apply(s, op, part, hist):
             return True
         if post != pre or s.log[n_log:]:
             bad("query-changed-state", {"before": pre, "after": post})
+            return True
+    if kind == "queries":
+        from barril.units import UnitDatabase
+
+        db = UnitDatabase.GetSingleton()
+
+        def conv_exp(u, c):
+            to = model.current_default_unit(c)
+            return ("ok", (1500.0, u, c)) if to is None else ("ok", (db.Convert(c, u, to, 1500.0), to, c))
+
+        exp = (
+            tuple(("ok", i) if i in model.systems else ("raise", "ValueError") for i in ("a", "b", "c", "system 1", "nope")),
+            tuple(("ok", model.current_default_unit(c)) for c in ("length", "depth", "time")),
+            tuple(("ok", model.current_default_unit(c) or u) for u, c in (("m", "length"), ("km", "depth"), ("s", "time"))),
+            tuple(conv_exp(u, c) for u, c in (("m", "length"), ("km", "depth"), ("s", "time"))),
+            ("ok", model.current),
+            ("ok", list(model.systems)),
+        )
+        if result != exp:
+            bad("queries", {"impl": result, "model": exp})
+            return True
+        if post != pre or s.log[n_log:]:
+            bad("query-changed-state", {"before": pre, "after": post, "callbacks": s.log[n_log:]})
             return True
     if kind == "newid" and (post != pre or s.log[n_log:]):
         bad("query-changed-state", {"before": pre, "after": post})
